@@ -1,6 +1,7 @@
 package props
 
 import (
+	"strings"
 	"golang.org/x/tools/go/ssa"
 
 	"bbcheck/internal/an"
@@ -196,6 +197,16 @@ func channelRules(c *Ctx) {
 			mk, isMk := dst.(*ssa.MakeSlice)
 			ok := an.IsLoadOfField(src, "Channel.buffer") && isMk && P.Lin(mk.Len).Equal(aLen(q.param(0)+".buffer"))
 			q.add("ESC", "Buffer() returns a full copy", ok, "copy(make([]T, len(buffer)), buffer)", cps[0])
+			// the copy is skipped only for a nil/empty buffer (not, e.g., when everything is rolled back)
+			got := P.PathCond(q.fn, nil, cps[0], nil)
+			okg := len(got) > 0
+			for _, f := range got.Forms() {
+				if !(strings.Contains(f, q.param(0)+".buffer") && !strings.Contains(f, "rollback")) {
+					okg = false
+				}
+			}
+			q.add("COND", "Buffer() returns every taken-but-uncommitted value (skips the copy only for an empty buffer)", okg,
+				pickS(okg, "the copy depends only on the buffer being non-nil/non-empty", "Buffer() can return nil although uncommitted values are buffered: "+got.String()), cps[0])
 		}
 	}
 	// ---- Close: cancel then close(done), inside the Once and the hold
